@@ -265,6 +265,10 @@ func genLimitTPs(t *rapid.T) []specgen.TPDesc {
 }
 
 var scenarioKinds = []string{"stream", "stream", "conn", "conn", "count", "count", "cid", "dgram", "idle"}
+
+// The built-in parrots advertise only a few distinct (and large: 6..24 MiB) windows, so their bulk scenarios are
+// both expensive and repetitive: they get a smaller share.
+var scenarioKindsBuiltin = []string{"stream", "conn", "count", "count", "count", "cid", "dgram", "dgram", "idle", "idle"}
 var streamTypes = []string{"uni", "bidi_remote", "bidi_local"}
 
 func genScenario(t *rapid.T, kind string) Scenario {
@@ -299,7 +303,7 @@ func genScenario(t *rapid.T, kind string) Scenario {
 func genCase(t *rapid.T) Case {
 	c := Case{Seed: rapid.Uint64().Draw(t, "seed")}
 	c.Spec.Base = rapid.SampledFrom(specgen.BaseNames()).Draw(t, "base")
-	builtin := rapid.IntRange(0, 5).Draw(t, "builtin") == 0
+	builtin := rapid.IntRange(0, 6).Draw(t, "builtin") == 0
 	if !builtin {
 		c.Spec.TPs = genLimitTPs(t)
 		if rapid.IntRange(0, 3).Draw(t, "e-src") == 0 {
@@ -355,7 +359,11 @@ func genCase(t *rapid.T) Case {
 	c.RTTms = rapid.SampledFrom([]int{2, 20, 20, 80}).Draw(t, "rtt")
 	n := rapid.IntRange(1, 3).Draw(t, "nscen")
 	for i := 0; i < n; i++ {
-		c.Scen = append(c.Scen, genScenario(t, rapid.SampledFrom(scenarioKinds).Draw(t, "kind")))
+		kinds := scenarioKinds
+		if builtin {
+			kinds = scenarioKindsBuiltin
+		}
+		c.Scen = append(c.Scen, genScenario(t, rapid.SampledFrom(kinds).Draw(t, "kind")))
 	}
 	return c
 }
